@@ -1308,4 +1308,39 @@ example : Progress.WF W.staleState ∧ Progress.FairRun W.A .port W.progressBatc
     rw [hq2] at hx
     rw [List.mem_singleton.1 hx]; decide
 
+/-! ## the strict twin of `probeRetry_backed` (third outside review, item 3) -/
+
+open Strict in
+/-- **the retry path on its own, strict**: `probeRetry_backed` for `BackedStrict` — `probeserver.retry`, entered with the record
+the lookup returned (it lives under the probe's key), keeps every OTHER mark backed by a NON-EXPIRING probe at every crash point
+and under every fault placement: the re-queue (`AddBetween(prb, now + delay, NC)`: no expiry, `retry_order`) precedes the mark.
+Clause of C16 covered: "a retry mark is set only together with a queued probe", for the mark-setting path of the prober, with the
+backing probe required not to expire. -/
+theorem probeRetry_backed_strict (cs : List Choice) (prb : Probe) (svr : Server) (t : Int) (now : Int) (s : AbsState)
+    (hb : BackedExceptS s prb.addr prb.goal) (hk : Keyed s)
+    (hrow : s.servers[prb.addr.key]? = some ⟨svr, t⟩) (hcanon : svr.addr = prb.addr) :
+    BackedExceptS (Prog.runChoices cs (UC.probeRetry prb svr) s now) prb.addr prb.goal := by
+  refine ((Strict.probeRetry_good (fun _ => True) prb svr (E := fun a g => a = svr.addr ∧ Marked svr g) (R := fun x => x = prb.addr)
+    hcanon rfl (by rw [hcanon]) (fun g hg => ⟨rfl, hg⟩)).runChoices_kinv (X := fun a' g' => a' = prb.addr ∧ g' = prb.goal)
+    cs s now ⟨hb, hk, ?_, ?_, fun _ _ _ => trivial, fun _ _ => trivial⟩).1
+  · rintro a g ⟨rfl, hm⟩
+    exact hb _ _ g hrow hm
+  · intro x hx row hr
+    subst hx
+    rw [hrow] at hr; cases hr; exact hcanon
+
+open Strict in
+/-- non-vacuity of `probeRetry_backed_strict`'s hypotheses: the holder-loss witness `W.state` (A marked `port_retry`, the only
+port probe for A popped and held) is `BackedExceptS … A port`, keyed, and A's record is stored under the probe's key with the
+probe's address; the retry run to completion re-queues a non-expiring probe (the store is `BackedStrict` again). -/
+example : BackedExceptS W.state W.probe.addr W.probe.goal ∧ Keyed W.state ∧
+    W.state.servers[W.probe.addr.key]? = some ⟨W.svr, 0⟩ ∧ W.svr.addr = W.probe.addr ∧
+    backedStrictB ((UC.probeRetry W.probe W.svr).run W.state 5).1 = true := by
+  refine ⟨?_, W.state_keyed, by decide, rfl, by decide⟩
+  intro k row g h hm
+  obtain ⟨rfl, rfl⟩ := W.state_row k row h
+  cases g with
+  | details => exact absurd hm (by decide)
+  | port => exact Or.inl ⟨rfl, rfl⟩
+
 end Swat4.C16
